@@ -209,9 +209,19 @@ def run(c):
         finally:
             if srv:
                 srv.cleanup()
-        # the same monitor under a configured (restricted) cross-origin policy
-        cors_env = {"RWS_CONFIG_CORS_ALLOW_ALL": "false", "RWS_CONFIG_CORS_ALLOW_ORIGINS": "https://a.example,https://b.example", "RWS_CONFIG_CORS_ALLOW_METHODS": "GET,PUT",
-                    "RWS_CONFIG_CORS_ALLOW_HEADERS": "content-type", "RWS_CONFIG_CORS_EXPOSE_HEADERS": "etag", "RWS_CONFIG_CORS_MAX_AGE": "600", "RWS_CONFIG_CORS_ALLOW_CREDENTIALS": "true"}
+        # the same monitor under configured (restricted) cross-origin policies: two origins, exactly one origin, none
+        for origins_cfg in ("https://a.example,https://b.example", "https://a.example", ""):
+          cors_env = {"RWS_CONFIG_CORS_ALLOW_ALL": "false", "RWS_CONFIG_CORS_ALLOW_ORIGINS": origins_cfg, "RWS_CONFIG_CORS_ALLOW_METHODS": "GET,PUT",
+                      "RWS_CONFIG_CORS_ALLOW_HEADERS": "content-type", "RWS_CONFIG_CORS_EXPOSE_HEADERS": "etag", "RWS_CONFIG_CORS_MAX_AGE": "600", "RWS_CONFIG_CORS_ALLOW_CREDENTIALS": "true"}
+          restricted_pass(c, t, inputs, f, cors_env, judge)
+        c.extra["statuses_observed"] = {k: sorted(v) for k, v in observed.items()}
+        first_requests_race(c, t, rng, judge, f)
+    finally:
+        t.cleanup()
+
+
+def restricted_pass(c, t, inputs, f, cors_env, judge):
+    if True:
         extra = []
         for m in ("GET", "HEAD", "OPTIONS", "POST"):
             for origin in ("https://a.example", "https://b.example", "https://evil.example", None):
@@ -237,7 +247,3 @@ def run(c):
                 c.inconc("server with a restricted policy did not start")
         finally:
             srv2.cleanup()
-        c.extra["statuses_observed"] = {k: sorted(v) for k, v in observed.items()}
-        first_requests_race(c, t, rng, judge, f)
-    finally:
-        t.cleanup()
